@@ -278,11 +278,24 @@ def _group_of(l):
     try:
         po = l[2][0]
         f = po[3][0][1]
-        if f[0] == "fmt" and len(f[2]) == 2:
-            return f[2][1]
+        if f[0] == "fmt":
+            # the component that carries the group counter (wherever it stands in the name)
+            gs = [a for a in f[2] if _mentions_groups(a)]
+            if len(gs) == 1:
+                return gs[0]
+            if len(f[2]) == 2 and not gs:
+                return f[2][1]
     except Exception:
         pass
     return None
+
+
+def _mentions_groups(t):
+    if isinstance(t, tuple):
+        if t and t[0] == "app" and t[1] == "field" and len(t[2]) == 2 and t[2][1] == lit("groups"):
+            return True
+        return any(_mentions_groups(x) for x in t if isinstance(x, tuple))
+    return False
 
 
 def _prefix_of(l):
@@ -427,6 +440,10 @@ def _labels_counter(ck, fx):
             n += 1
             ok = ctx["op"] == "AddAssign"
             ck.ob("R2.labels", "%s|groups += c" % b["path"], ok, loc(node), "compound write %s" % ctx["op"])
+        elif ctx.get("mut") or ctx["kind"] in ("addr_of_mut",):
+            n += 1
+            ck.ob("R2.labels", "%s|&mut groups" % b["path"], False, loc(node),
+                  "the group counter is handed out mutably (%s): it can be reset or rewound, so later constructs reuse label names" % ctx["kind"])
     ck.floor("R2.labels", "writes to LabelGenerator.groups", n, 2)
     ctors = []
     for b in fx.hir:
